@@ -26,6 +26,12 @@ import numpy as np
 from vf import lattice
 from vf.cli import WorkerResult
 
+
+def _gt(a, b):
+    """a > b that is also True when a is NaN (a silent NaN must never pass a tolerance test)."""
+    return ~(np.asarray(a) <= np.asarray(b))
+
+
 LEVEL = "exploration"
 RULE = (
     "product atom count x element assignment (deviation-bounded above 3 atoms) x geometry x order "
@@ -232,7 +238,7 @@ def _motions(res, bw, pts, atcoords, atnums, n, case, full):
                     res.count(n * len(pts))
                     p2, c2 = pts @ rot.T + shift, atcoords @ rot.T + shift
                     moved = np.array([bw.generate_weights(p2, c2, atnums, select=a) for a in range(n)])
-                    if np.max(np.abs(moved - base)) > 1e-12:
+                    if _gt(np.max(np.abs(moved - base)), 1e-12):
                         res.violation("not-invariant-under-rigid-motion", f"weights change by {np.max(np.abs(moved - base)):.3e} under "
                                       f"cube rotation #{ir} + translation {shift.tolist()}", case)
                         break
@@ -242,7 +248,7 @@ def _motions(res, bw, pts, atcoords, atnums, n, case, full):
                 res.count(n * len(pts))
                 perm = np.array(perm)
                 relabelled = np.array([bw.generate_weights(pts, atcoords[perm], atnums[perm], select=a) for a in range(n)])
-                if np.max(np.abs(relabelled - base[perm])) > 1e-13:
+                if _gt(np.max(np.abs(relabelled - base[perm])), 1e-13):
                     res.violation("not-invariant-under-relabelling", f"weights change under the atom permutation {perm.tolist()}", case)
                     break
                 res.nontrivial()
@@ -258,7 +264,7 @@ def _compare(res, rname, key, got, want, case, atom, seg):
     if got.min() < -TOL or got.max() > 1 + TOL:
         res.violation(f"{rname}:outside-[0,1]", f"{rname}: weights in [{got.min()}, {got.max()}]", case)
     err = np.abs(got - want)
-    if err.max() > TOL:
+    if _gt(err.max(), TOL):
         i = int(np.argmax(err))
         res.violation(f"{rname}:differs-from-definition:{key}",
                       f"{rname}{'' if atom is None else f'(atom {atom})'}{'' if seg is None else f' [{seg}]'}: point {i} has weight "
@@ -309,7 +315,7 @@ class InstanceWorld:
                 got, want = self.bw.generate_weights(pts, coords, atnums, select=len(atnums) - 1), W[-1]
             else:
                 got, want = self.bw.compute_atom_weight(pts, coords, atnums, 0), W[0]
-        if np.max(np.abs(np.asarray(got) - want)) > TOL:
+        if _gt(np.max(np.abs(np.asarray(got) - want)), TOL):
             self.violations.append((f"instance-reuse:{route}:differs-from-definition",
                                     f"{route} on molecule {mname} after {self.hist} on the same BeckeWeights object deviates from the "
                                     f"definition by {np.max(np.abs(np.asarray(got) - want)):.2e}", {}))
@@ -359,10 +365,10 @@ def hirshfeld(ctx):
             got = np.asarray(hw(pts, coords, nums, idx), dtype=float)
             total += got
             ctx.nontrivial(("hirsh", tuple(nums), a), section="hirshfeld")
-            if np.max(np.abs(got - want_all[a])) > 1e-12:
+            if _gt(np.max(np.abs(got - want_all[a])), 1e-12):
                 ctx.violation("hirshfeld:not-the-proatom-density-share", f"atom {a} of {nums.tolist()}: max deviation "
                               f"{np.max(np.abs(got - want_all[a])):.3e}", case)
-        if np.max(np.abs(total - 1.0)) > 1e-12:
+        if _gt(np.max(np.abs(total - 1.0)), 1e-12):
             ctx.violation("hirshfeld:weights-do-not-sum-to-one", f"{nums.tolist()}: sum deviates by {np.max(np.abs(total - 1)):.3e}", case)
         # mixed segmentation
         ctx.count(len(pts), section="hirshfeld")
@@ -371,7 +377,7 @@ def hirshfeld(ctx):
         for a in range(n):
             owner[idx[a]:idx[a + 1]] = a
         got = np.asarray(hw(pts, coords, nums, idx), dtype=float)
-        if np.max(np.abs(got - want_all[owner, np.arange(len(pts))])) > 1e-12:
+        if _gt(np.max(np.abs(got - want_all[owner, np.arange(len(pts))])), 1e-12):
             ctx.violation("hirshfeld:segmented-call-differs", f"{nums.tolist()}: segmented call differs from the density share", case)
 
 
